@@ -45,6 +45,10 @@ def cases(tier, seed):
         if needs_orientation and "point_mass" in pairing:
             continue
         out.append({"joint": kind, "pairing": list(pairing), "placement": "given" if (i // 3) % 3 else "default"})
+    # mechanisms far from the origin whose joint point lies a hair beside a body's reference point
+    for j, kind in enumerate([k for k in gen.JOINT_KINDS if k != "FixedDistance"] * {"quick": 2, "thorough": 40}[tier]):
+        out.append({"joint": kind, "pairing": ["rigid_body", "rigid_body"] if j % 2 == 0 else ["rigid_body", "point_mass" if kind == "Spherical" else "rigid_body"],
+                    "placement": "given", "far": True})
     return out
 
 
@@ -93,6 +97,16 @@ def run_case(spec, ctx):
         if kind == "Spherical" and not any(hasattr(s, "A_IB") for s in subs):
             placement = "given"
         joint, info = gen.make_joint(rng, kind, subs[0], subs[1], placement=placement, xi1=xis[0], xi2=xis[1])
+        if spec.get("far"):
+            from vlib.oracles import random_unit, loguniform
+            shift = random_unit(rng) * float(loguniform(rng, 30, 3000))
+            for s_ in subs:
+                s_.q0 = np.array(s_.q0, dtype=float); s_.q0[:3] = s_.q0[:3] * 0.5 + shift
+            # joint point beside the reference point of one of the bodies: the offset is tiny compared with the distance
+            # from the origin, but it is an offset (the joint must still be satisfied where it was defined)
+            who = subs[int(rng.integers(2))]
+            joint.r_OJ0 = who.q0[:3] + rng.normal(size=3) * float(loguniform(rng, 1e-7, 1e-5)) * float(np.linalg.norm(shift))
+            ctx.cls("placement:far_from_origin_small_offset")
         pms = [s_ for s_ in subs if s_.__class__.__name__ == "PointMass"]
         if kind == "Spherical" and pms:
             # a point mass can only be connected at its own position: the joint point is that position
@@ -118,6 +132,8 @@ def run_case(spec, ctx):
         g0 = system.g(system.t0, system.q0)
         ctx.mon("EQ:g0")
         scale = 1.0 + np.abs(system.q0).max() ** 2 if system.q0.size else 1.0
+        if spec.get("far"):
+            scale = 1.0 + np.abs(system.q0).max()       # positions enter g linearly here: rounding level is eps*|r|
         if np.abs(g0).max() > 1e-10 * scale:
             ctx.violation(f"{kind}.g", "joint is not satisfied in the configuration in which it was defined", {**extra, "g0": g0})
         label = f"{kind}[{pairing[0]},{pairing[1]}]"
